@@ -116,7 +116,7 @@ def main():
         "setup_cmd": "make -C /verif clean all",
         "hooks": {"guard": "MPMATH_VERIF", "enable": "MPMATH_VERIF=1 in the environment of the checking process (no rebuild needed: pure Python)",
                   "baseline_off_cmd": "cd /repo && /venv/bin/python -m pytest -q -p no:cacheprovider --timeout=900",
-                  "source_commits": [], "add_only": True},
+                  "source_commits": ["ba5b004"], "add_only": True},
         "engines": [
             {"name": "A", "path": "/verif/coq (Algo, Spec, Proofs, Props) + /verif/extract + /verif/harness", "serves_properties": [p for p in CHECKS if CHECKS[p]["engine"] == "A"],
              "kind_free_text": "hand-written Gallina model of libmp with Coq theorems; extracted to OCaml and run against the live implementation (correspondence); constant tables regenerated from the code and re-checked by Coq each run"},
